@@ -50,6 +50,7 @@ func findFuncPrefix(c *core.Ctx, pkg, prefix string) *ssa.Function {
 }
 
 func runC23(c *core.Ctx) {
+	checkHexQuantities(c)
 	sigs := map[string][]string{}
 	for _, p := range c23Pkgs {
 		pkg := "native/service/cross_chain_manager/" + p
